@@ -221,12 +221,11 @@ func (t *callTracer) CaptureAspectExit(joinpoint types.JoinPointRunType, result 
 	// reset join point if we exit
 	last := len(t.callstack) - 1
 	t.callstack[last].joinPoint = types.JoinPointRunType_Unknown
-	for i := range t.callstack[last].JoinPoints {
-		if t.callstack[last].JoinPoints[i].Type == joinpoint {
-			t.callstack[last].JoinPoints[i].GasUsed = t.callstack[last].JoinPoints[i].Gas - result.Gas
-			t.callstack[last].JoinPoints[i].processOutput(result.Ret, result.Err)
-			break
-		}
+	// the aspect that exits is the one entered last on this frame: several aspects
+	// can be bound to the same join point, each has its own frame
+	if i := len(t.callstack[last].JoinPoints) - 1; i >= 0 && t.callstack[last].JoinPoints[i].Type == joinpoint {
+		t.callstack[last].JoinPoints[i].GasUsed = t.callstack[last].JoinPoints[i].Gas - result.Gas
+		t.callstack[last].JoinPoints[i].processOutput(result.Ret, result.Err)
 	}
 }
 
